@@ -395,6 +395,7 @@ fn main() {
     let mut seed: u64 = 1;
     let mut tier = String::from("quick");
     let mut replay: Option<String> = None;
+    let mut corpus: Option<String> = None;
     let mut i = 1;
     while i < args.len() {
         match args[i].as_str() {
@@ -402,6 +403,7 @@ fn main() {
             "--seed" => { seed = args[i + 1].parse().unwrap_or(1); i += 1; }
             "--tier" => { tier = args[i + 1].clone(); i += 1; }
             "--replay" => { replay = Some(args[i + 1].clone()); i += 1; }
+            "--corpus" => { corpus = Some(args[i + 1].clone()); i += 1; }
             _ => {}
         }
         i += 1;
@@ -427,6 +429,25 @@ fn main() {
         let inp = v.get("input").cloned().unwrap_or(v.clone());
         if inp.get("problem").is_some() {
             probs.push((Prob::from_json(&inp["problem"]), Cfg::from_json(&inp["settings"])));
+        }
+    }
+    // corpus: regression problems kept from earlier findings ({"input": {"problem", "settings"}} files)
+    if let (false, Some(dir)) = (replaying, corpus.as_ref()) {
+        let mut files: Vec<_> = std::fs::read_dir(dir).map(|rd| rd.flatten().map(|e| e.path()).collect()).unwrap_or_default();
+        files.sort();
+        for f in files {
+            if f.extension().map(|e| e == "json").unwrap_or(false) {
+                if let Ok(txt) = std::fs::read_to_string(&f) {
+                    if let Ok(v) = serde_json::from_str::<Value>(&txt) {
+                        let inp = v.get("input").cloned().unwrap_or(v.clone());
+                        if inp.get("problem").is_some() {
+                            let mut p = Prob::from_json(&inp["problem"]);
+                            p.label = format!("corpus {}: {}", f.file_name().unwrap().to_string_lossy(), p.label);
+                            probs.push((p, Cfg::from_json(&inp["settings"])));
+                        }
+                    }
+                }
+            }
         }
     }
     for p in (if replaying { vec![] } else { boundary_shapes(&mut rng) }) {
